@@ -38,6 +38,7 @@ struct Files {
     autosave_dir: String,
     missing: String,
     dir: String,
+    meta_dir: String, // file-metadata shapes: time stamps before 1970 / far in the future, symlinks (live, dangling, to a directory), a fifo, a non-UTF-8 name
 }
 
 struct CaseSpec {
@@ -109,6 +110,9 @@ fn concretise(verb: &str, arg: &str, tk: Option<&str>, f: &Files, big: bool) -> 
             "ok_plugins_dup" => j(json!({"files":[file],"plugins":[{"name":"Rewrite","rewrites":[]},{"name":"FileTransfer"},
                 {"name":"Rewrite","rewrites":[]},{"name":"FileTransfer","keepFLDA":true}]})),
             "ok_zip" => j(json!({"files":[f.realzip]})),
+            // the same archive named 120 times: the extraction (sequential, after the reply) stays pending for several 100 ms
+            "ok_zip_slow" => j(json!({"files": std::iter::repeat(f.realzip.clone()).take(120).collect::<Vec<_>>()})),
+            "ok_zip_slow_onepass" => j(json!({"collect":"one_pass_streams","files": std::iter::repeat(f.realzip.clone()).take(120).collect::<Vec<_>>()})),
             "zip_glob_all" => j(json!({"files":[format!("{}!/**/*.dlt", f.realzip)]})),
             "zip_glob_some" => j(json!({"files":[format!("{}!/logs/sub/*.dlt", f.realzip)]})),
             "zip_glob_none" => j(json!({"files":[format!("{}!/no_such_dir/*.dlt", f.realzip)]})),
@@ -252,6 +256,17 @@ fn concretise(verb: &str, arg: &str, tk: Option<&str>, f: &Files, big: bool) -> 
             "fakezip_stat" => j(json!({"cmd":"stat","path":format!("{}!/x", f.fakezip)})),
             "zip_readdir" => j(json!({"cmd":"readDirectory","path":format!("{}!/", f.realzip)})),
             "zip_stat" => j(json!({"cmd":"stat","path":format!("{}!/logs/small.dlt", f.realzip)})),
+            "stat_oldtime" => j(json!({"cmd":"stat","path":format!("{}/old.dlt", f.meta_dir)})),
+            "stat_futuretime" => j(json!({"cmd":"stat","path":format!("{}/future.bin", f.meta_dir)})),
+            "stat_dir" => j(json!({"cmd":"stat","path":format!("{}/sub", f.meta_dir)})),
+            "stat_olddir" => j(json!({"cmd":"stat","path":f.meta_dir})),
+            "stat_symlink" => j(json!({"cmd":"stat","path":format!("{}/link_file", f.meta_dir)})),
+            "stat_symlink_dir" => j(json!({"cmd":"stat","path":format!("{}/link_dir", f.meta_dir)})),
+            "stat_dangling" => j(json!({"cmd":"stat","path":format!("{}/link_dangling", f.meta_dir)})),
+            "stat_fifo" => j(json!({"cmd":"stat","path":format!("{}/fifo", f.meta_dir)})),
+            "readdir_meta" => j(json!({"cmd":"readDirectory","path":f.meta_dir})),
+            "readdir_emptydir" => j(json!({"cmd":"readDirectory","path":format!("{}/sub", f.meta_dir)})),
+            "readdir_via_symlink" => j(json!({"cmd":"readDirectory","path":format!("{}/link_dir", f.meta_dir)})),
             _ => panic!("fs arg {}", arg),
         }),
         "unknown" => match arg {
@@ -577,7 +592,7 @@ const CHANGE: [&str; 6] = ["ok", "ok_empty", "ok_garbage", "ok_beyond", "noarg",
 const BSEARCH: [&str; 8] = ["time", "time_garbage", "index_found", "index_garbage", "index_missing", "badkey", "nokey", "noarg"];
 const SEARCH: [&str; 9] = ["ok", "ok_defaults", "ok_nomatch", "noarg", "badjson", "startwrongtype", "maxwrongtype", "filterswrongtype", "badfilter"];
 const PLUGIN: [&str; 15] = ["save_ok", "save_ok2", "save_incomplete", "save_badidx", "save_unwritable", "save_noparams", "save_noctx", "rw_cmd", "noarg", "badjson", "notobject", "nocmd", "noname", "noplugin", "ft_cmd"];
-const FS: [&str; 16] = ["noarg", "badjson", "notobject", "nocmd", "nopath", "unknowncmd", "stat_ok", "readdir_ok", "stat_missing", "readdir_missing", "arch_nonexist", "arch_unsupported", "fakezip_readdir", "fakezip_stat", "zip_readdir", "zip_stat"];
+const FS: [&str; 27] = ["stat_oldtime", "stat_futuretime", "stat_dir", "stat_olddir", "stat_symlink", "stat_symlink_dir", "stat_dangling", "stat_fifo", "readdir_meta", "readdir_emptydir", "readdir_via_symlink", "noarg", "badjson", "notobject", "nocmd", "nopath", "unknowncmd", "stat_ok", "readdir_ok", "stat_missing", "readdir_missing", "arch_nonexist", "arch_unsupported", "fakezip_readdir", "fakezip_stat", "zip_readdir", "zip_stat"];
 const UNKNOWN: [&str; 5] = ["frobnicate", "empty", "uppercase", "stream_window", "leadingspace"];
 const PLAIN: [&str; 2] = ["", "junk"];
 
@@ -732,6 +747,16 @@ fn scripted() -> Vec<CaseSpec> {
         mk(false, "awaited", vec![step("open", "ok", ""), step("stream", "ok_filt", ""), step("stream_search", "noarg", "h1"), step("close", "", "")]),
         mk(false, "awaited", vec![step("fs", "fakezip_readdir", ""), step("fs", "stat_ok", "")]),
         mk(false, "awaited", vec![step("fs", "fakezip_stat", ""), step("fs", "stat_ok", "")]),
+        // commands while the extraction of an archive open is still pending (no parser thread yet): every verb right behind the
+        // open, then again once the extraction has finished
+        mk(false, "awaited", vec![step("open", "ok_zip_slow", ""), step("stream", "ok", ""), step("stream_binary_search", "time", "h1"), step("stream_binary_search", "index_found", "h1"), step("stream_search", "ok", "h1"), step("stream_change_window", "ok", "h1"), step("sleep", "1500", ""), step("stream_binary_search", "time", "h1"), step("stop", "", "h1"), step("close", "", ""), step("fs", "stat_ok", "")]),
+        mk(false, "awaited", vec![step("open", "ok_zip_slow", ""), step("query", "ok_filt", ""), step("stream_binary_search", "time", "h1"), step("stream_search", "ok", "h1"), step("stop", "", "h1"), step("stream", "ok_filt", ""), step("stream_binary_search", "time_garbage", "h1"), step("stream_binary_search", "index_missing", "h1"), step("pause", "", ""), step("resume", "", ""), step("plugin_cmd", "noplugin", ""), step("close", "", ""), step("open", "ok", ""), step("close", "", "")]),
+        mk(false, "pipelined", vec![step("open", "ok_zip_slow", ""), step("stream", "ok", ""), step("stream_binary_search", "time", "h1"), step("stream_search", "ok", "h1"), step("stream_change_window", "ok", "h1"), step("stream_binary_search", "time", "h1"), step("close", "", ""), step("fs", "stat_ok", "")]),
+        mk(false, "awaited", vec![step("open", "ok_zip_slow_onepass", ""), step("stream", "ok_onepass", ""), step("stream_binary_search", "time", "h1"), step("stream_search", "ok", "h1"), step("resume", "", ""), step("stream_binary_search", "time", "h1"), step("sleep", "1500", ""), step("stream_binary_search", "time", "h1"), step("close", "", ""), step("fs", "stat_ok", "")]),
+        mk(false, "awaited", vec![step("open", "ok_zip_slow", ""), step("close", "", ""), step("open", "ok_zip_slow", ""), step("stream", "ok", ""), step("close", "", ""), step("stream_binary_search", "time", "h1"), step("open", "ok", ""), step("stream", "ok", ""), step("stream_binary_search", "time", "h1"), step("close", "", "")]),
+        // every file-metadata shape once, each followed by a plain stat (the connection must still answer)
+        mk(false, "awaited", FS[..11].iter().flat_map(|a| vec![step("fs", a, ""), step("fs", "stat_ok", "")]).collect()),
+        mk(false, "pipelined", FS[..11].iter().map(|a| step("fs", a, "")).chain(std::iter::once(step("fs", "stat_ok", ""))).collect()),
         mk(false, "awaited", vec![step("open", "ok_onepass", ""), step("stream", "ok_onepass", ""), step("resume", "", ""), step("wait", "", ""), step("stream_search", "ok", "h1")]),
         mk(false, "awaited", vec![step("open", "ok_onepass", ""), step("stream", "ok_onepass", ""), step("resume", "", ""), step("wait", "", ""), step("stream_binary_search", "index_found", "h1"), step("stream_binary_search", "time", "h1"), step("close", "", "")]),
         // one-pass mode: a stream created / a window changed after messages were drained (poll loop)
@@ -902,7 +927,36 @@ fn make_files(work: &str, seed: u64, n_small: usize, n_big: usize, n_huge: usize
     } else {
         String::new()
     };
-    Files { small, big, huge, n_small: n_small as u64, n_big: n_big as u64, empty, fakezip, realzip, nodltzip, ft, ft_data, autosave_dir, missing: format!("{}/does_not_exist.dlt", dir), dir }
+    // file-metadata shapes for `fs stat` / `fs readDirectory` (times the server has to convert, file types it has to name)
+    let meta_dir = format!("{}/meta", dir);
+    {
+        use std::time::{Duration, SystemTime};
+        let _ = std::fs::remove_dir_all(&meta_dir);
+        std::fs::create_dir_all(format!("{}/sub", meta_dir)).unwrap();
+        let set = |p: &str, t: SystemTime| {
+            if let Ok(f) = std::fs::File::options().read(true).open(p) {
+                let _ = f.set_modified(t);
+            }
+        };
+        let old = format!("{}/old.dlt", meta_dir);
+        std::fs::copy(&small, &old).unwrap();
+        let fut = format!("{}/future.bin", meta_dir);
+        std::fs::write(&fut, b"x").unwrap();
+        let _ = std::os::unix::fs::symlink(&small, format!("{}/link_file", meta_dir));
+        let _ = std::os::unix::fs::symlink(format!("{}/sub", meta_dir), format!("{}/link_dir", meta_dir));
+        let _ = std::os::unix::fs::symlink(format!("{}/nowhere", meta_dir), format!("{}/link_dangling", meta_dir));
+        let _ = std::process::Command::new("mkfifo").arg(format!("{}/fifo", meta_dir)).status();
+        {
+            use std::os::unix::ffi::OsStrExt;
+            let mut p = std::path::PathBuf::from(&meta_dir);
+            p.push(std::ffi::OsStr::from_bytes(b"non\xffutf8.dlt"));
+            let _ = std::fs::write(&p, b"");
+        }
+        set(&old, SystemTime::UNIX_EPOCH - Duration::from_secs(86400));
+        set(&fut, SystemTime::UNIX_EPOCH + Duration::from_secs(20_000_000_000));
+        set(&meta_dir, SystemTime::UNIX_EPOCH - Duration::from_secs(3 * 365 * 86400));
+    }
+    Files { meta_dir, small, big, huge, n_small: n_small as u64, n_big: n_big as u64, empty, fakezip, realzip, nodltzip, ft, ft_data, autosave_dir, missing: format!("{}/does_not_exist.dlt", dir), dir }
 }
 
 fn main() {
